@@ -1284,6 +1284,8 @@ pub fn run_history(src: Source, mut drv: Option<&mut Driver>, oracle: &mut Oracl
                 out.oracle = Some((sig, format!("op {i} ({}): {what}", op.name()), i, model_same));
             }
         }
+        // branch tags an oracle pushed into `world.branches` (for `expect_branches`)
+        out.branches.append(&mut world.branches);
         out.final_frames = step.obs.frames.len();
         before = step.obs;
         if out.oracle.is_some() || out.disagree.is_some() { break; }
